@@ -70,6 +70,9 @@ type verifRequest struct {
 	Args   []string          `json:"args"`
 	Env    map[string]string `json:"env"`
 	Config *string           `json:"config"`
+	// ConfigVia: how the path given to -config reaches the file: "" (plain path) | "symlink" (a link to the file) |
+	// "dirlink" (through a linked directory) | "unclean" (a path with . and .. components)
+	ConfigVia string `json:"config_via"`
 }
 
 type verifPhaseResult struct {
@@ -416,6 +419,28 @@ func verifOptions(req *verifRequest, tmp string) (resp verifResponse) {
 		if err := ioutil.WriteFile(file, []byte(*req.Config), 0644); err != nil {
 			resp.Error = err.Error()
 			return
+		}
+		// the path given to -config may reach the file through a link
+		switch req.ConfigVia {
+		case "symlink":
+			link := filepath.Join(tmp, "current.conf")
+			os.Remove(link)
+			if err := os.Symlink(file, link); err != nil {
+				resp.Error = err.Error()
+				return
+			}
+			file = link
+		case "dirlink":
+			link := filepath.Join(tmp, "etc")
+			os.Remove(link)
+			if err := os.Symlink(tmp, link); err != nil {
+				resp.Error = err.Error()
+				return
+			}
+			file = filepath.Join(link, "vflow.conf")
+		case "unclean":
+			os.MkdirAll(filepath.Join(tmp, "x"), 0755)
+			file = tmp + "/./x/../vflow.conf"
 		}
 		// "@CONFIG@" among the arguments marks where "-config <file>" goes; default: in front
 		placed := false
